@@ -317,6 +317,107 @@ theorem raw_truncated_rejected (g : GridFile ℝ) (h : WF g) (k : Nat) (hk : k <
     omega)]
   rfl
 
+/-! ### gradient grids linked to a count grid -/
+
+/-- the state ABF keeps: no accumulated force where there is no sample -/
+def GradConsistent (mult : Nat) (data : List ℝ) (cnt : List Nat) : Prop :=
+  ∀ a, a < data.length → pointCount mult cnt a = 0 → data.getD a 0 = 0
+
+private theorem gradOut_length (mult : Nat) (data : List ℝ) (cnt : List Nat) :
+    (gradOut mult data cnt).length = data.length := by
+  simp [gradOut]
+
+private theorem gradIn_length (mult : Nat) (vals : List ℝ) (cnt : List Nat) :
+    (gradIn mult vals cnt).length = vals.length := by
+  simp [gradIn]
+
+/-- replacing the data by a list of the same length keeps the grid well formed -/
+theorem WF_with_data (g : GridFile ℝ) (h : WF g) (out : List ℝ) (hl : out.length = g.data.length) :
+    WF { g with data := out } :=
+  ⟨h.lo, h.w, h.per, h.pos, by show out.length = _; rw [hl]; exact h.data⟩
+
+/-- writing the average and multiplying by the count again gives back the stored sums -/
+theorem grad_out_in (mult : Nat) (data : List ℝ) (cnt : List Nat) (h : GradConsistent mult data cnt) :
+    gradIn mult (gradOut mult data cnt) cnt = data := by
+  apply List.ext_getElem
+  · rw [gradIn_length, gradOut_length]
+  · intro a h1 h2
+    have hd : data.getD a 0 = data[a] := by simp [List.getD_eq_getElem?_getD, h2]
+    simp only [gradIn, gradOut, List.getElem_map, List.getElem_zipIdx, Nat.zero_add]
+    by_cases hp : pointCount mult cnt a > 0
+    · rw [if_pos hp]
+      have : ((pointCount mult cnt a : Nat) : ℝ) ≠ 0 := Nat.cast_ne_zero.mpr (by omega)
+      exact div_mul_cancel₀ _ this
+    · rw [if_neg hp]
+      have h0 : pointCount mult cnt a = 0 := by omega
+      have := h a h2 h0
+      rw [hd] at this
+      rw [this]
+      norm_num
+
+/-- **gradient grid, multicolumn round trip** (plain read): data and counts of the reading grids equal those written -/
+theorem grad_multicol_roundtrip (g : GridFile ℝ) (h : WF g) (cnt : List Nat)
+    (hc : GradConsistent g.mult g.data cnt) :
+    gradMulticolRoundTrip g (some cnt) false = some (g.data, cnt) := by
+  have hw := WF_with_data g h (gradOut g.mult g.data cnt) (gradOut_length _ _ _)
+  have hr := multicol_roundtrip _ hw
+  simp only [gradMulticolRoundTrip]
+  simp only at hr
+  rw [hr]
+  simp [grad_out_in _ _ _ hc]
+
+/-- **reading with `add`** (the `inputPrefix` path): grids that already hold the same data end up with exactly twice the
+    sums and twice the counts — every component of every point, not only the first -/
+theorem grad_multicol_add (g : GridFile ℝ) (h : WF g) (cnt : List Nat)
+    (hc : GradConsistent g.mult g.data cnt) :
+    gradMulticolRoundTrip g (some cnt) true
+      = some (List.zipWith (· + ·) g.data g.data, List.zipWith (· + ·) cnt cnt) := by
+  have hw := WF_with_data g h (gradOut g.mult g.data cnt) (gradOut_length _ _ _)
+  have hr := multicol_roundtrip _ hw
+  simp only [gradMulticolRoundTrip]
+  simp only at hr
+  rw [hr]
+  simp [gradInAdd, countInAdd, grad_out_in _ _ _ hc]
+
+/-- without a count grid the file carries the data itself -/
+theorem grad_multicol_nocount (g : GridFile ℝ) (h : WF g) (add : Bool) :
+    gradMulticolRoundTrip g none add
+      = some (if add then List.zipWith (· + ·) g.data g.data else g.data, []) := by
+  have hr := multicol_roundtrip g h
+  simp only [gradMulticolRoundTrip]
+  rw [hr]
+  cases add <;> simp
+
+/-- raw and restart forms of a gradient grid linked to its count grid -/
+theorem grad_raw_roundtrip (g : GridFile ℝ) (h : WF g) (cnt : List Nat) (hc : GradConsistent g.mult g.data cnt)
+    (restart : Bool) :
+    gradRawRoundTrip g (some cnt) restart = some (g.data, cnt) := by
+  have hw := WF_with_data g h (gradOut g.mult g.data cnt) (gradOut_length _ _ _)
+  cases restart with
+  | false =>
+    have hr := raw_roundtrip _ hw { g with data := [] } rfl
+    simp only [gradRawRoundTrip]
+    simp only [Bool.false_eq_true, if_false]
+    rw [hr]
+    simp only [grad_out_in _ _ _ hc]
+  | true =>
+    have hw' : WF { g with per := g.per.map (fun _ => false), data := gradOut g.mult g.data cnt } :=
+      ⟨hw.lo, hw.w, by simpa using h.per, hw.pos, hw.data⟩
+    have hr := restart_roundtrip _ hw'
+    have he : encodeRestart { g with per := g.per.map (fun _ => false), data := gradOut g.mult g.data cnt }
+        = encodeRestart { g with data := gradOut g.mult g.data cnt } := rfl
+    rw [he] at hr
+    simp only [gradRawRoundTrip]
+    simp only [if_true]
+    rw [hr]
+    simp only [grad_out_in _ _ _ hc]
+
+/-- the premises are satisfiable: a 2 x 1 grid of two variables, one point without samples -/
+example : GradConsistent 2 [3, -1, 0, 0] [2, 0] := by
+  intro a ha h0
+  have : a < 4 := by simpa using ha
+  interval_cases a <;> simp_all [pointCount]
+
 end IO
 
 end Cv.C15
